@@ -244,6 +244,19 @@ def run(ctx):
     store_level(ctx, R4)
 
 
+def restore_rules(ctx, R):
+    """the restore-on-error clause alone (shared with C09 / C10): Track::add_observation and Track::merge"""
+    nerr_total = 0
+    for name in ('add_observation', 'merge'):
+        body = ctx.anchor(R, TRACK + '::' + name)
+        if body is None:
+            continue
+        ra, ex, nerr = restore_rule(ctx, body, R)
+        nerr_total += nerr
+    ctx.floor(R, nerr_total, 4)
+    return nerr_total
+
+
 def store_level(ctx, R):
     F = ctx.F
     import storelib
